@@ -111,23 +111,89 @@ pub fn parse_data(x: &Sexp) -> Option<OwnedData> {
 }
 
 /// Build the borrowed (`&'static`) form by leaking — hand-written, independent of `From`.
+thread_local! {
+    // tables already leaked, keyed by their content: a borrowed schema written by hand (or emitted by a macro) may
+    // SHARE storage between types — identical tables, or one table being a prefix sub-slice of another
+    // (`HeaderV1`'s fields = `&HEADER_V2_FIELDS[..2]`). Conversions must go by content and length, never by address.
+    static FIELD_TABLES: RefCell<Vec<(Vec<String>, &'static [&'static NamedField])>> = const { RefCell::new(Vec::new()) };
+    static VARIANT_TABLES: RefCell<Vec<(Vec<String>, &'static [&'static Variant])>> = const { RefCell::new(Vec::new()) };
+    static TYPE_LISTS: RefCell<Vec<(Vec<String>, &'static [&'static B])>> = const { RefCell::new(Vec::new()) };
+}
+use std::cell::RefCell;
+
+/// number of nodes of a schema, counted up to `cap` (cheap test for "small")
+fn small(o: &O, cap: &mut usize) -> bool {
+    fn data(d: &OwnedData, cap: &mut usize) -> bool {
+        match d {
+            OwnedData::Unit => true,
+            OwnedData::Newtype(t) => small(t, cap),
+            OwnedData::Tuple(ts) => ts.iter().all(|t| small(t, cap)),
+            OwnedData::Struct(fs) => fs.iter().all(|f| small(&f.ty, cap)),
+        }
+    }
+    if *cap == 0 {
+        return false;
+    }
+    *cap -= 1;
+    match o {
+        O::Option(t) | O::Seq(t) => small(t, cap),
+        O::Tuple(ts) => ts.iter().all(|t| small(t, cap)),
+        O::Map { key, val } => small(key, cap) && small(val, cap),
+        O::Struct { data: d, .. } => data(d, cap),
+        O::Enum { variants, .. } => variants.iter().all(|v| data(&v.data, cap)),
+        _ => true,
+    }
+}
+
+fn shared<T: 'static>(reg: &'static std::thread::LocalKey<RefCell<Vec<(Vec<String>, &'static [T])>>>, keys: Option<Vec<String>>, make: impl FnOnce() -> Vec<T>) -> &'static [T] {
+    // sharing is only attempted for small tables (the content keys are strings)
+    let keys = match keys {
+        Some(k) if !k.is_empty() => k,
+        _ => return Box::leak(make().into_boxed_slice()),
+    };
+    if let Some(hit) = reg.with(|r| r.borrow().iter().find(|(k, _)| k.len() >= keys.len() && k[..keys.len()] == keys[..]).map(|(_, t)| *t)) {
+        return &hit[..keys.len()];
+    }
+    let t: &'static [T] = Box::leak(make().into_boxed_slice());
+    reg.with(|r| {
+        let mut r = r.borrow_mut();
+        if r.len() < 4096 {
+            r.push((keys, t));
+        }
+    });
+    t
+}
+
+fn data_key(d: &OwnedData) -> String {
+    match d {
+        OwnedData::Unit => "unit".into(),
+        OwnedData::Newtype(t) => format!("(newtype {})", show(t)),
+        OwnedData::Tuple(ts) => format!("(tuple{})", ts.iter().map(|t| format!(" {}", show(t))).collect::<String>()),
+        OwnedData::Struct(fs) => format!("(struct{})", fs.iter().map(|f| format!(" ({} {})", crate::sexp::hex(f.name.as_bytes()), show(&f.ty))).collect::<String>()),
+    }
+}
+
 pub fn leak(o: &O) -> &'static B {
     fn leak_str(s: &str) -> &'static str {
         Box::leak(s.to_string().into_boxed_str())
     }
     fn leak_list(ts: &[O]) -> &'static [&'static B] {
-        Box::leak(ts.iter().map(leak).collect::<Vec<_>>().into_boxed_slice())
+        let mut cap = 40;
+        let keys = if ts.len() <= 8 && ts.iter().all(|t| small(t, &mut cap)) { Some(ts.iter().map(show).collect()) } else { None };
+        shared(&TYPE_LISTS, keys, || ts.iter().map(leak).collect())
     }
     fn leak_data(d: &OwnedData) -> Data {
         match d {
             OwnedData::Unit => Data::Unit,
             OwnedData::Newtype(t) => Data::Newtype(leak(t)),
             OwnedData::Tuple(ts) => Data::Tuple(leak_list(ts)),
-            OwnedData::Struct(fs) => Data::Struct(Box::leak(
-                fs.iter()
-                    .map(|f| &*Box::leak(Box::new(NamedField { name: leak_str(&f.name), ty: leak(&f.ty) })))
-                    .collect::<Vec<_>>()
-                    .into_boxed_slice(),
+            OwnedData::Struct(fs) => Data::Struct(shared(
+                &FIELD_TABLES,
+                {
+                    let mut cap = 40;
+                    if fs.len() <= 8 && fs.iter().all(|f| f.name.len() <= 32 && small(&f.ty, &mut cap)) { Some(fs.iter().map(|f| format!("{} {}", crate::sexp::hex(f.name.as_bytes()), show(&f.ty))).collect()) } else { None }
+                },
+                || fs.iter().map(|f| &*Box::leak(Box::new(NamedField { name: leak_str(&f.name), ty: leak(&f.ty) }))).collect(),
             )),
         }
     }
@@ -143,16 +209,49 @@ pub fn leak(o: &O) -> &'static B {
         O::Struct { name, data } => B::Struct { name: leak_str(name), data: leak_data(data) },
         O::Enum { name, variants } => B::Enum {
             name: leak_str(name),
-            variants: Box::leak(
-                variants
-                    .iter()
-                    .map(|v| &*Box::leak(Box::new(Variant { name: leak_str(&v.name), data: leak_data(&v.data) })))
-                    .collect::<Vec<_>>()
-                    .into_boxed_slice(),
+            variants: shared(
+                &VARIANT_TABLES,
+                {
+                    let mut cap = 40;
+                    let sm = |d: &OwnedData, cap: &mut usize| match d {
+                        OwnedData::Unit => true,
+                        OwnedData::Newtype(t) => small(t, cap),
+                        OwnedData::Tuple(ts) => ts.iter().all(|t| small(t, cap)),
+                        OwnedData::Struct(fs) => fs.iter().all(|f| f.name.len() <= 32 && small(&f.ty, cap)),
+                    };
+                    if variants.len() <= 8 && variants.iter().all(|v| v.name.len() <= 32 && sm(&v.data, &mut cap)) { Some(variants.iter().map(|v| format!("{} {}", crate::sexp::hex(v.name.as_bytes()), data_key(&v.data))).collect()) } else { None }
+                },
+                || variants.iter().map(|v| &*Box::leak(Box::new(Variant { name: leak_str(&v.name), data: leak_data(&v.data) }))).collect(),
             ),
         },
     };
     Box::leak(Box::new(b))
+}
+
+/// schemas in which one field / variant / element table is a proper prefix of an earlier, longer one (and
+/// identical tables occur twice): with `leak` they share storage the way hand-written statics can
+pub fn aliasing_schemas() -> Vec<O> {
+    let nm = |s: &str| s.to_string().into_boxed_str();
+    let f = |n: &str, t: O| OwnedNamedField { name: nm(n), ty: t };
+    let st = |n: &str, fs: Vec<OwnedNamedField>| O::Struct { name: nm(n), data: OwnedData::Struct(fs.into_boxed_slice()) };
+    let v2 = st("HeaderV2", vec![f("id", O::U32), f("len", O::U16), f("crc", O::U32)]);
+    let v1 = st("HeaderV1", vec![f("id", O::U32), f("len", O::U16)]);
+    let v0 = st("HeaderV0", vec![f("id", O::U32)]);
+    let var = |n: &str, d: OwnedData| OwnedVariant { name: nm(n), data: d };
+    let e3 = O::Enum { name: nm("E3"), variants: vec![var("A", OwnedData::Unit), var("B", OwnedData::Newtype(Box::new(O::U8))), var("C", OwnedData::Tuple(vec![O::U8, O::Bool].into_boxed_slice()))].into_boxed_slice() };
+    let e2 = O::Enum { name: nm("E2"), variants: vec![var("A", OwnedData::Unit), var("B", OwnedData::Newtype(Box::new(O::U8)))].into_boxed_slice() };
+    let t3 = O::Tuple(vec![O::U8, O::U16, O::U32].into_boxed_slice());
+    let t2 = O::Tuple(vec![O::U8, O::U16].into_boxed_slice());
+    let evs = O::Enum { name: nm("Msg"), variants: vec![var("Long", OwnedData::Struct(vec![f("a", O::U8), f("b", O::String), f("c", O::Bool)].into_boxed_slice())), var("Short", OwnedData::Struct(vec![f("a", O::U8), f("b", O::String)].into_boxed_slice())), var("T3", OwnedData::Tuple(vec![O::I8, O::I16, O::I32].into_boxed_slice())), var("T2", OwnedData::Tuple(vec![O::I8, O::I16].into_boxed_slice()))].into_boxed_slice() };
+    vec![
+        O::Tuple(vec![v2.clone(), v1.clone(), v0.clone()].into_boxed_slice()),
+        O::Tuple(vec![v2.clone(), v2.clone(), v1.clone()].into_boxed_slice()),
+        O::Tuple(vec![e3.clone(), e2.clone()].into_boxed_slice()),
+        O::Tuple(vec![t3.clone(), t2.clone(), t3, t2].into_boxed_slice()),
+        evs,
+        O::Map { key: Box::new(v2), val: Box::new(v1) },
+        O::Seq(Box::new(O::Tuple(vec![e3, e2].into_boxed_slice()))),
+    ]
 }
 
 pub fn gen_name(r: &mut Rng) -> String {
